@@ -282,6 +282,8 @@ def gen_case(rng, small=False):
         else:
             dv = rng.randrange(1, ndisc + 1)
         kind = 1 if rng.random() < 0.15 else 0
+        if kind == 1 and rng.random() < 0.35:
+            dv = None                                  # a Deferred whose function returns None
         if dv is not None and structured and rng.random() < 0.9:
             desc = _descendants(nodes, owner[dv])
             if dv in used or len(desc) == 1:
@@ -357,6 +359,11 @@ SEEDS = [
 
 
 SEEDS += [
+    # a Deferred resolving to None is 'no discriminator': never conflicts, never discarded, whatever ran before
+    {'mode': 'direct', 'nodes': [], 'actions': [A(0, None, 0, 0, kind=1), A(1, None, 0, 0, kind=1)]},
+    {'mode': 'direct', 'nodes': [[0, 'a']], 'actions': [A(0, None, 0, 0, kind=1), A(1, None, 1, 0, kind=1)]},
+    {'mode': 'include', 'nodes': [[0, 's1']], 'actions': [A(0, None, 0, 0), A(1, None, 1, 5, kind=1)]},
+    {'mode': 'direct', 'nodes': [], 'actions': [A(0, None, 0, 0, adds=[A(1, None, 0, 0, kind=1)])]},
     # falsy (non-None) discriminators are discriminators: same-level clash, nested override, Deferred resolving to one
     {'mode': 'direct', 'nodes': [], 'actions': [A(0, 1, 0, 0), A(1, 1, 0, 0)], 'falsy': [[1, 'tuple']]},
     {'mode': 'direct', 'nodes': [], 'actions': [A(0, 1, 0, 0), A(1, 1, 0, 0)], 'falsy': [[1, 'zero']]},
@@ -526,12 +533,23 @@ def _info_id(info):
     return int(m.group(1)) if m else s
 
 
+def _key_num(rev, k):
+    """a key of ConfigurationConflictError._conflicts as a number: the abstract discriminator, 0 for the key None
+    (never a legitimate key: None-discriminated actions cannot conflict), -1 for any other unexpected value."""
+    if k is None:
+        return 0
+    try:
+        return (rev or {}).get(k, -1)
+    except TypeError:
+        return -1
+
+
 def _outcome(fn, log, rev=None):
     try:
         fn()
         return [0]
     except _impl['Conflict'] as e:
-        return [1, [[(rev or {}).get(k, repr(k)), [_info_id(x) for x in v]] for k, v in e._conflicts.items()]]
+        return [1, [[_key_num(rev, k), [_info_id(x) for x in v]] for k, v in e._conflicts.items()]]
     except _impl['ExecError'] as e:
         return ['EXC', 'ConfigurationExecutionError', type(e.evalue).__name__ if hasattr(e, 'evalue') else '']
     except _impl['Error'] as e:
@@ -625,7 +643,7 @@ def run_impl(case):
 def _reduce(out):
     """what the property speaks about: outcome kind, the SET of contested discriminators, the phases of a refusal."""
     if out and out[0] == 1:
-        return [1, sorted(k for k, _ in out[1])]
+        return [1, sorted((k for k, _ in out[1]), key=lambda k: (str(type(k)), str(k)))]
     return out
 
 
@@ -695,6 +713,13 @@ def kinds(case, obs):
         k.append('has-deferred')
     if any(e[0] == 1 for e in log):
         k.append('deferred-forced')
+    dn = [a for a in acts if a['disc'] == [1, None]]
+    if dn:
+        k.append('deferred-none')
+        if len(dn) > 1:
+            k.append('deferred-none-several')
+        if any(a['disc'] == [0, None] for a in acts):
+            k.append('deferred-none-with-plain-none')
     if len({a['order'] for a in acts}) > 1:
         k.append('multi-phase')
     if any(a['order'] is None for a in acts):
